@@ -150,6 +150,13 @@ where
         | .and => .ok (Keyword.Spec.all t ws)
         | .other => .error .typeError
 
+/-- two answers agree: the same exception, or the same set of ids -/
+def SameAnswer (a b : Except Err IdSet) : Prop :=
+  match a, b with
+  | .ok x, .ok y => ∀ d, d ∈ x ↔ d ∈ y
+  | .error e, .error e' => e = e'
+  | _, _ => False
+
 /-! ## search -/
 
 /-- intersection of the answers of the queried indexes; none queried → nothing -/
